@@ -89,7 +89,11 @@ def neighbours(c, r):
         return [f"{ep}{a}.{b}.{cc}", f"{ep}{a}.{b}.{cc + 1}", f"{ep}{a}.{b + 1}.0", f"{a + 1}.0.0"]
     if c == "naming":
         ws = corr_fmt.rand_name(r)
-        return [ws, ws + ["zz"], ["aa"] + ws][: r.randint(2, 3)]
+        # the same letters split into other words are other values: the word list is the value, not its flat spelling
+        i = r.randrange(len(ws))
+        resplit = ws[:i] + ([ws[i][:1], ws[i][1:]] if len(ws[i]) > 1 else [ws[i]]) + ws[i + 1:]
+        joined = (ws[:i] + [ws[i] + ws[i + 1]] + ws[i + 2:]) if i + 1 < len(ws) else ["".join(ws)]
+        return [ws] + r.sample([ws + ["zz"], ["aa"] + ws, resplit, joined], r.randint(2, 3))
     b = 8 * 1024 ** r.randint(0, 4) * r.randint(0, 9)
     return [b, b + 8, b + 8 * 1024]
 
